@@ -12,48 +12,48 @@ From V Require Import Base NameMatch Chart Exec Large Fast GenCGen CGen CGenLemm
 From Coq Require Import Lia Sorted ZifyBool.
 Local Open Scope nat_scope.
 
-Fixpoint sortedb (l : list nat) : bool :=
+Fixpoint bref_sortedb (l : list nat) : bool :=
   match l with
-  | x :: r => match r with y :: _ => (x <? y) && sortedb r | [] => true end
+  | x :: r => match r with y :: _ => (x <? y) && bref_sortedb r | [] => true end
   | [] => true
   end.
 
-Lemma sortedb_sound l : sortedb l = true -> ssorted l.
+Lemma bref_sortedb_sound l : bref_sortedb l = true -> ssorted l.
 Proof.
   induction l as [|x r IH]; intros H; [constructor|].
   destruct r as [|y r']; [repeat constructor|].
-  cbn [sortedb] in H. apply andb_true_iff in H as [H1 H2]. apply Nat.ltb_lt in H1. specialize (IH H2).
+  cbn [bref_sortedb] in H. apply andb_true_iff in H as [H1 H2]. apply Nat.ltb_lt in H1. specialize (IH H2).
   constructor; [exact IH|]. apply ssorted_cons_inv in IH as [_ F]. constructor; [exact H1|].
   rewrite Forall_forall in *. intros z Hz. specialize (F z Hz). lia.
 Qed.
 
-Definition blt (n : nat) (l : list nat) : bool := forallb (fun x => x <? n) l.
-Lemma blt_sound n l : blt n l = true -> bounded n l.
-Proof. unfold blt. rewrite forallb_forall. intros H. apply bounded_intro. intros x Hx. apply Nat.ltb_lt. now apply H. Qed.
+Definition bref_blt (n : nat) (l : list nat) : bool := forallb (fun x => x <? n) l.
+Lemma bref_blt_sound n l : bref_blt n l = true -> bounded n l.
+Proof. unfold bref_blt. rewrite forallb_forall. intros H. apply bounded_intro. intros x Hx. apply Nat.ltb_lt. now apply H. Qed.
 
-Definition has_parent (s : fstate) : bool := match fs_parent s with Some _ => true | None => false end.
-Definition is_finalt (t : ftype) : bool := match t with FFinal => true | _ => false end.
+Definition bref_has_parent (s : fstate) : bool := match fs_parent s with Some _ => true | None => false end.
+Definition bref_is_final (t : ftype) : bool := match t with FFinal => true | _ => false end.
 
 Section Check.
 Variable c : fchart.
 Let ns := nstates c.
 
-Definition state_okb (i : nat) : bool :=
+Definition bref_state_okb (i : nat) : bool :=
   let s := st c i in
-  blt ns (fs_children s) && blt ns (fs_completion s) && blt i (fs_ancestors s) && sortedb (fs_ancestors s) &&
-  (if is_hist (fs_type s) || is_finalt (fs_type s) then has_parent s else true) &&
+  bref_blt ns (fs_children s) && bref_blt ns (fs_completion s) && bref_blt i (fs_ancestors s) && bref_sortedb (fs_ancestors s) &&
+  (if is_hist (fs_type s) || bref_is_final (fs_type s) then bref_has_parent s else true) &&
   match fs_type s, fs_parent s with
   | FFinal, Some p => Bool.eqb (list_eqb (fs_ancestors s) [0]) (p =? 0)
   | _, _ => true
   end.
 
-Definition trans_okb (j : nat) : bool :=
+Definition bref_trans_okb (j : nat) : bool :=
   let t := tr c j in
-  blt ns (ft_targets t) && (if ft_history t || ft_initial t then has_parent (st c (ft_source t)) else true).
+  bref_blt ns (ft_targets t) && (if ft_history t || ft_initial t then bref_has_parent (st c (ft_source t)) else true).
 
 Definition bref_chartb : bool :=
-  chart_idx_ok c && forallb state_okb (seq 0 ns) && forallb trans_okb (seq 0 (ntrans c)) &&
-  sortedb (fs_completion (st c 0)) && negb (is_hist (fs_type (st c 0))).
+  chart_idx_ok c && forallb bref_state_okb (seq 0 ns) && forallb bref_trans_okb (seq 0 (ntrans c)) &&
+  bref_sortedb (fs_completion (st c 0)) && negb (is_hist (fs_type (st c 0))).
 End Check.
 
 (* ------------------------------------------------------------------ type codes and flags *)
@@ -101,7 +101,7 @@ Hypothesis Hok : bref_chartb c = true.
 Set Default Proof Using "cv Hns Hnt Hok".
 
 Lemma okb_parts :
-  chart_idx_ok c = true /\ (forall i, i < ns -> state_okb c i = true) /\ (forall j, j < nt -> trans_okb c j = true) /\
+  chart_idx_ok c = true /\ (forall i, i < ns -> bref_state_okb c i = true) /\ (forall j, j < nt -> bref_trans_okb c j = true) /\
   ssorted (fs_completion (st c 0)) /\ is_hist (fs_type (st c 0)) = false.
 Proof.
   pose proof Hok as K. unfold bref_chartb in K. rewrite !andb_true_iff in K. destruct K as [[[[A B] C] D] E].
@@ -109,7 +109,7 @@ Proof.
   - exact A.
   - intros i Hi. rewrite forallb_forall in B. apply B. apply in_seq. lia.
   - intros j Hj. rewrite forallb_forall in C. apply C. apply in_seq. lia.
-  - now apply sortedb_sound.
+  - now apply bref_sortedb_sound.
   - now apply negb_true_iff.
 Qed.
 
@@ -187,13 +187,13 @@ Qed.
 Lemma st_parts i : i < ns ->
   bounded ns (fs_children (st c i)) /\ bounded ns (fs_completion (st c i)) /\ bounded i (fs_ancestors (st c i)) /\
   ssorted (fs_ancestors (st c i)) /\
-  (is_hist (fs_type (st c i)) || is_finalt (fs_type (st c i)) = true -> has_parent (st c i) = true) /\
+  (is_hist (fs_type (st c i)) || bref_is_final (fs_type (st c i)) = true -> bref_has_parent (st c i) = true) /\
   (forall p, fs_type (st c i) = FFinal -> fs_parent (st c i) = Some p ->
              match fs_ancestors (st c i) with [0] => true | _ => false end = (p =? 0)).
 Proof.
-  intros Hi. destruct okb_parts as (_ & H & _). specialize (H i Hi). unfold state_okb in H. cbv zeta in H.
+  intros Hi. destruct okb_parts as (_ & H & _). specialize (H i Hi). unfold bref_state_okb in H. cbv zeta in H.
   repeat (apply andb_true_iff in H as [H ?]).
-  split; [now apply blt_sound|]. split; [now apply blt_sound|]. split; [now apply blt_sound|]. split; [now apply sortedb_sound|].
+  split; [now apply bref_blt_sound|]. split; [now apply bref_blt_sound|]. split; [now apply bref_blt_sound|]. split; [now apply bref_sortedb_sound|].
   split.
   - intros E. rewrite E in H1. exact H1.
   - intros p Ef Ep. rewrite Ef, Ep in H0. apply Bool.eqb_prop in H0. rewrite <- H0.
@@ -226,15 +226,15 @@ Qed.
 Lemma targets_bounded j : bounded ns (ft_targets (tr c j)).
 Proof.
   destruct (Nat.lt_ge_cases j nt) as [L|G].
-  - destruct okb_parts as (_ & _ & H & _). specialize (H j L). unfold trans_okb in H. apply andb_true_iff in H as [H _].
-    now apply blt_sound.
+  - destruct okb_parts as (_ & _ & H & _). specialize (H j L). unfold bref_trans_okb in H. apply andb_true_iff in H as [H _].
+    now apply bref_blt_sound.
   - unfold tr. rewrite nth_overflow by exact G. constructor.
 Qed.
 Lemma pseudo_trans_parent j : j < nt -> ft_history (tr c j) || ft_initial (tr c j) = true ->
   exists p, fs_parent (st c (ft_source (tr c j))) = Some p.
 Proof.
-  intros L E. destruct okb_parts as (_ & _ & H & _). specialize (H j L). unfold trans_okb in H. apply andb_true_iff in H as [_ H].
-  rewrite E in H. unfold has_parent in H. destruct (fs_parent (st c (ft_source (tr c j)))); [eauto | discriminate].
+  intros L E. destruct okb_parts as (_ & _ & H & _). specialize (H j L). unfold bref_trans_okb in H. apply andb_true_iff in H as [_ H].
+  rewrite E in H. unfold bref_has_parent in H. destruct (fs_parent (st c (ft_source (tr c j)))); [eauto | discriminate].
 Qed.
 
 (* the generator's history completions are parts of the engines' *)
